@@ -199,6 +199,12 @@ def standard_plan(tier: str, seed: int, *, modes: list[str], n_random_quick: int
     if adj:
         for p in range(4):
             specs.append({"kind": "adj", "part": p, "parts": 4})
+    if grid:
+        # multi-gap small-alphabet grid (see engines/rt.py:multi_items); quick takes every third cell
+        mparts = 16
+        for p in range(mparts):
+            specs.append({"kind": "multi", "part": p, "parts": mparts, "stride": 3 if tier == "quick" else 1,
+                          "cap": 1200 if tier == "quick" else 20000})
     total = n_random_quick if tier == "quick" else n_random_thorough
     per = 1250 if tier == "quick" else 5000
     nshards = max(1, total // per)
